@@ -388,7 +388,7 @@ if ( jcol==BADCOL )
 	       corresponding U-segment may be all zero. */
 
 #ifdef SLU_MT_VERIF
-	    SLUV_EVENT(SLUV_E_SUB_READ_BEGIN, pnum, jcol, krep, xlsub[krep], xlsub_end[krep], 0);
+	    SLUV_EVENT(SLUV_E_SUB_READ_BEGIN, pnum, jcol, krep, xlsub[fsupc] + krep - fsupc, xlsub_end[fsupc], 0);
 	    SLUV_YIELD(SLUV_Y_SUB_READ);
 #endif /* SLU_MT_VERIF */
 	    /* Append new fills in panel_lsub[*,jj]. */
